@@ -141,8 +141,11 @@ func (s *Sys) judgeSide(isI bool, end time.Duration) (string, string) {
 			at time.Duration
 		}
 		var answers []owed
-		if lastSend < t0 && !isI {
-			lastSend = t0 // (the acceptor's Logon reply follows at once)
+		recovering := false // X has asked for a resend in this period
+		if lastSend < t0 {
+			// the clauses speak of the logged-on period: the first heartbeat interval is counted from its beginning at
+			// the latest (the acceptor's Logon reply follows at once; an initiator's Logon may be much older)
+			lastSend = t0
 		}
 		for _, e := range evs[first:] {
 			if e.T > t1 {
@@ -178,6 +181,9 @@ func (s *Sys) judgeSide(isI bool, end time.Duration) (string, string) {
 					}
 					pending, pendSince = true, e.T
 				}
+				if e.Type == "2" {
+					recovering = true
+				}
 				if e.Type == "0" && e.ID != "" {
 					for i, a := range answers {
 						if a.id == e.ID {
@@ -201,7 +207,9 @@ func (s *Sys) judgeSide(isI bool, end time.Duration) (string, string) {
 					pending = false
 					hbFloor = c
 				}
-				if e.Type == "1" && !e.Dup && c < t1 {
+				if e.Type == "1" && !e.Dup && c < t1 && !recovering {
+					// (the clause is about a TestRequest received in sequence: while X recovers a gap the request may be
+					// kept and answered later, which the model part judges with sequence numbers at hand)
 					answers = append(answers, owed{e.ID, c})
 				}
 			}
